@@ -142,6 +142,29 @@ theorem close_rate_zero_completed (accepted : Nat) :
   simp only [closeAcceptanceRate, if_true]
   norm_num
 
+/-! ### the evaluation limiter: after it has interrupted a run, the next run gets a fresh budget -/
+
+/-- whichever call raises (misfit or gradient), the counter is back at its initial value -/
+theorem limiter_raise_resets (limit gcount c : Nat) (k : LimCall) (h : (limStep limit gcount c k).2 = true) :
+    (limStep limit gcount c k).1 = 0 := by
+  unfold limStep at h ⊢
+  split
+  · rfl
+  · rename_i hc; simp [hc] at h
+
+/-- hence a second sequence of calls on the same object behaves exactly like the first one did:
+    the sampler (and the target) can immediately be used for another run -/
+theorem limiter_next_run_like_first (limit gcount c : Nat) (k : LimCall) (calls : List LimCall)
+    (h : (limStep limit gcount c k).2 = true) :
+    limRun limit gcount (limStep limit gcount c k).1 calls = limRun limit gcount 0 calls := by
+  rw [limiter_raise_resets limit gcount c k h]
+
+/-- with a positive limit, a call evaluates iff the budget has not been exceeded before it -/
+theorem limiter_raises_iff (limit gcount c : Nat) (k : LimCall) :
+    (limStep limit gcount c k).2 = true ↔ (limit ≠ 0 ∧ limit < c) := by
+  unfold limStep
+  split <;> simp_all
+
 /-! ### non-vacuity: a concrete run (HMC-like: 5 calls per proposal, thinning 2, 4 proposals),
     interrupted at boundary 9, i.e. inside proposal 1 -/
 example : (trace (fun _ => 5) 2 4).length = 28 := by decide
